@@ -14,14 +14,17 @@ import os
 import re
 import vlib
 
+# NOTE: vlib.dep_hash only follows `From X Require Import Y.` lines, so GenHeader must be *imported* for the
+# per-run cache to see a regenerated layout; it is imported BEFORE Model.Layout so that the unqualified name
+# `layout` stays the type Layout.layout -- the generated data is always written GenHeader.layout.
 IMPORTS = """From Coq Require Import ZArith String List Bool.
+From Gen Require Import GenHeader.
 From Lib Require Import ZList.
 From Spec Require Import HeaderSpec.
 From Model Require Import Layout Header.
 """
 
-LAYOUT_V = IMPORTS + """From Gen Require GenHeader.
-Import ListNotations.
+LAYOUT_V = IMPORTS + """Import ListNotations.
 Local Open Scope Z_scope.
 Set Printing Depth 1000.
 Set Printing Width 200.
@@ -32,6 +35,19 @@ Definition diag := Eval vm_compute in
   (sizes_pos L, size L, tags_ok GenHeader.layout hdr_base, spec_ok L, aligned L ext_size,
    byte_field_at L off_title_last, byte_field_at L off_old_maker).
 Print diag.
+(* documented entries whose field sits elsewhere / has another size: (path, documented address, size, actual address, actual size) *)
+Definition spec_mismatch := Eval vm_compute in
+  flat_map (fun d => match d with (name, addr, k) =>
+     match find_field L name 0 with
+     | Some (o, k') => if (hdr_base + o =? addr) && (k' =? k) then [] else [(name, addr, k, hdr_base + o, k')]
+     | None => [] end end) documented.
+Print spec_mismatch.
+(* tagged fields whose rom tag is not $FFB0 + cumulative offset: (path, tag, actual address) *)
+Definition tag_mismatch := Eval vm_compute in
+  flat_map (fun j => match nth_error GenHeader.layout j with
+     | Some (name, _, Some t) => if t =? hdr_base + offset L j then [] else [(name, t, hdr_base + offset L j)]
+     | _ => [] end) (seq 0 (length L)).
+Print tag_mismatch.
 Definition addresses := Eval vm_compute in
   map (fun j => (fst (nth j L (EmptyString, 0)), hdr_base + offset L j, nth_size L j)) (seq 0 (length L)).
 Print addresses.
@@ -80,14 +96,6 @@ THEOREMS = [
      "forall img off h, 0 <= off -> off + 80 <= zlen img -> 2 <= hver h -> in_range L (hvals h) = true ->\n"
      "  exists img', rom_write_header L img off h = HOk img' /\\ rom_read_header L img' off = HOk (read_header L (write_header L h))",
      "write_read GenHeader.layout gen_layout_ok"),
-    ("C09_write_frame",
-     "forall img off h img', rom_write_header L img off h = HOk img' ->\n  zlen img' = zlen img /\\ (forall k, k < off \\/ off + 80 <= k -> znth img' k = znth img k) /\\\n"
-     "  (hver h <= 1 -> forall k, k < off + 16 -> znth img' k = znth img k)",
-     "write_frame L"),
-    ("C09_locality_raw",
-     "forall bs i b vs vs', 0 <= i < zlen bs -> b <> znth bs i ->\n  decode L bs = Some vs -> decode L (upd bs i b) = Some vs' ->\n"
-     "  match field_of L i with Some j => diff_exactly j vs vs' | None => vs = vs' end",
-     "decode_locality_upd L"),
     ("C09_locality_reported",
      "forall bs i b h h', zlen bs = 80 -> 0 <= i < 80 -> b <> znth bs i ->\n  read_header L bs = Some h -> read_header L (upd bs i b) = Some h' ->\n"
      "  exists j, field_of L i = Some j /\\\n    (i <> 36 -> i <> 42 -> hver h' = hver h) /\\\n"
@@ -99,7 +107,15 @@ THEOREMS = [
      "header_locality GenHeader.layout gen_layout_ok"),
 ]
 
-GENERIC = [  # proved for EVERY layout (Props/LayoutProps.v); restated here on a universally quantified layout
+GENERIC = [  # proved for EVERY layout (Props/LayoutProps.v, write_frame); K is universally quantified, L = untag GenHeader.layout
+    ("C09_write_frame",
+     "forall img off h img', rom_write_header L img off h = HOk img' ->\n  zlen img' = zlen img /\\ (forall k, k < off \\/ off + 80 <= k -> znth img' k = znth img k) /\\\n"
+     "  (hver h <= 1 -> forall k, k < off + 16 -> znth img' k = znth img k)",
+     "write_frame L"),
+    ("C09_locality_raw",
+     "forall bs i b vs vs', 0 <= i < zlen bs -> b <> znth bs i ->\n  decode L bs = Some vs -> decode L (upd bs i b) = Some vs' ->\n"
+     "  match field_of L i with Some j => diff_exactly j vs vs' | None => vs = vs' end",
+     "decode_locality_upd L"),
     ("C09_codec_encode_decode",
      "forall (K : layout) bs vs, bytes_ok bs -> zlen bs = size K -> decode K bs = Some vs -> encode K vs = bs",
      "encode_decode"),
@@ -116,18 +132,29 @@ GENERIC = [  # proved for EVERY layout (Props/LayoutProps.v); restated here on a
 ]
 
 
+def generic_v():
+    s = IMPORTS + "From Props Require Import LayoutProps HeaderProps.\nImport ListNotations.\nLocal Open Scope Z_scope.\n\n"
+    s += "(* the part of C09 that holds for EVERY layout (no hypothesis on header.go's struct at all) *)\n"
+    s += "Definition L : layout := untag GenHeader.layout.\n"
+    for (name, stmt, proof) in GENERIC:
+        s += "Theorem %s :\n  %s.\nProof. exact (%s). Qed.\n" % (name, stmt, proof)
+    for (name, _, _) in GENERIC:
+        s += "Print Assumptions %s.\n" % name
+    return s
+
+
 def props_v():
-    s = IMPORTS + "From Props Require Import LayoutProps HeaderProps.\nFrom Gen Require GenHeader.\nFrom Run Require Import C09_layout.\n"
+    s = IMPORTS + "From Props Require Import LayoutProps HeaderProps.\nFrom Run Require Import C09_layout.\n"
     s += "Import ListNotations.\nLocal Open Scope Z_scope.\n\n"
     s += "(* C09 on the layout regenerated from header.go on this run; L = untag GenHeader.layout *)\n"
-    for (name, stmt, proof) in THEOREMS + GENERIC:
+    for (name, stmt, proof) in THEOREMS:
         s += "Theorem %s :\n  %s.\nProof. exact (%s). Qed.\n" % (name, stmt, proof)
     s += "\n(* non-vacuity on the regenerated layout: a version-1 header with non-zero extension bytes *)\n"
     s += ("Example C09_nonvacuous : match read_header L (ziota 1 80) with Some h => hver h = 1 /\\ nth 0 (hvals h) 0 = 0 | None => False end.\n"
           "Proof. vm_compute. split; reflexivity. Qed.\n"
-          "Example C09_nonvacuous_v3 : match read_header L (upd (ziota 1 80) 42 51) with Some h => hver h = 3 /\\ nth 0 (hvals h) 0 = 513 | None => False end.\n"
-          "Proof. vm_compute. split; reflexivity. Qed.\n")
-    for (name, _, _) in THEOREMS + GENERIC:
+          "Example C09_nonvacuous_v3 : match read_header L (upd (ziota 1 80) 42 51) with Some h => hver h = 3 /\\ nth 0 (hvals h) 0 <> 0 | None => False end.\n"
+          "Proof. vm_compute. split; [reflexivity|discriminate]. Qed.\n")
+    for (name, _, _) in THEOREMS:
         s += "Print Assumptions %s.\n" % name
     return s
 
@@ -170,7 +197,6 @@ def case_term(line):
 
 
 CASES_V = IMPORTS + """From Model Require Import HeaderTie.
-From Gen Require GenHeader.
 Import ListNotations.
 Local Open Scope Z_scope.
 Set Printing Depth 100000.
@@ -185,7 +211,8 @@ Proof. reflexivity. Qed.
 """
 
 LAYOUT_TIE_V = """From Coq Require Import ZArith String List.
-From Gen Require GenHeader.
+From Gen Require Import GenHeader.
+From Spec Require Import HeaderSpec.
 Import ListNotations.
 Local Open Scope Z_scope.
 (* the flattened layout as Go's reflect package presents it to readBinaryStruct in the compiled program *)
@@ -193,6 +220,12 @@ Definition go_layout : list (string * Z * option Z) := [
 %s
 ].
 Lemma layout_tie : go_layout = GenHeader.layout.
+Proof. reflexivity. Qed.
+(* the documented map the Go falsifier uses is the one of Spec/HeaderSpec.v *)
+Definition go_documented : list (string * Z * Z) := [
+%s
+].
+Lemma documented_tie : go_documented = documented.
 Proof. reflexivity. Qed.
 """
 
@@ -254,23 +287,36 @@ def run_c09(ck):
         ok_all = ck.oblige("Lemma gen_layout_ok : layout_ok GenHeader.layout = true  (vm_compute: sizes > 0, total 80, every rom tag = $FFB0 + cumulative offset, documented map, cut at 16, byte fields at $FFD4/$FFDA)",
                            layout_ok, "diag (sizes_pos, size, tags_ok, spec_ok, aligned16, byte@$24, byte@$2A) = (%s)\n%s" % (diag, out[-800:])) and ok_all
         ck.cov["layout_diag"] = diag
+        def mism(name):
+            mm = re.search(name + r"\s*=\s*(\[.*?\])\s*:", out, re.S)
+            return " ".join(mm.group(1).split()) if mm else ""
+        ck.cov["layout_spec_mismatch"] = mism("spec_mismatch")
+        ck.cov["layout_tag_mismatch"] = mism("tag_mismatch")
+        if not layout_ok:
+            diag += "; documented-map mismatches (path, documented address, size, actual address, actual size) = %s; rom-tag mismatches (path, tag, actual address) = %s" % (
+                ck.cov["layout_spec_mismatch"], ck.cov["layout_tag_mismatch"])
+        gv = os.path.join(vlib.RUN, "C09_generic.v")
+        vlib.write_if_changed(gv, generic_v())
         pv = os.path.join(vlib.RUN, "C09_props.v")
         vlib.write_if_changed(pv, props_v())
         fresh = vlib.static_vo_fresh(pv)
         ok_all = ck.oblige("static library Props/LayoutProps.vo, Props/HeaderProps.vo, Model/*.vo compiled and newer than their sources", fresh,
                            "run ./check --setup") and ok_all
+        grc, gout, dt, _ = vlib.coqc(gv, timeout=600)
+        for (name, stmt, _) in GENERIC:
+            ok_all = ck.oblige("Theorem %s : %s" % (name, " ".join(stmt.split())), grc == 0, gout[-1200:]) and ok_all
         pout = ""
         prc = 1
         if layout_ok:
             prc, pout, dt, _ = vlib.coqc(pv, timeout=600)
-        for (name, stmt, _) in THEOREMS + GENERIC:
+        for (name, stmt, _) in THEOREMS:
             good = layout_ok and prc == 0
             detail = ""
             if not good:
-                detail = ("not attempted: gen_layout_ok failed, diag=(%s)" % diag) if not layout_ok else pout[-1200:]
+                detail = ("not instantiable: its hypothesis layout_ok GenHeader.layout = true is false on this tree; diag=(%s)" % diag) if not layout_ok else pout[-1200:]
             ok_all = ck.oblige("Theorem %s : %s" % (name, " ".join(stmt.split())), good, detail) and ok_all
-        if prc == 0:
-            ck.assumptions += vlib.parse_assumptions(pout)
+        if prc == 0 and grc == 0:
+            ck.assumptions += vlib.parse_assumptions(gout) + vlib.parse_assumptions(pout)
             bad = vlib.foreign_assumptions(ck.assumptions)
             closed = all(b.startswith("Closed under the global context") for b in ck.assumptions) and len(ck.assumptions) == len(THEOREMS + GENERIC)
             ok_all = ck.oblige("Print Assumptions of every C09 theorem: Closed under the global context", closed and not bad,
@@ -286,10 +332,12 @@ def run_c09(ck):
             p = l.split()
             if len(p) == 3:
                 rows.append('  ("%s"%%string, %s, %s)' % (p[0], p[1], "None" if p[2] == "-1" else "Some " + p[2]))
+        rcd, outd, _ = vlib.sh([harness, "hdrdocumented"], timeout=120)
+        drows = ['  ("%s"%%string, %s, %s)' % tuple(l.split()) for l in outd.splitlines() if len(l.split()) == 3]
         ltv = os.path.join(vlib.RUN, "Tie_C09_layout.v")
-        vlib.write_if_changed(ltv, LAYOUT_TIE_V % ";\n".join(rows))
+        vlib.write_if_changed(ltv, LAYOUT_TIE_V % (";\n".join(rows), ";\n".join(drows)))
         rc2, out2, _, _ = vlib.coqc(ltv, timeout=120)
-        ok_all = ck.oblige("tie: flattened layout seen by Go reflection in the compiled code = GenHeader.layout (Lemma layout_tie)",
+        ok_all = ck.oblige("tie: flattened layout seen by Go reflection in the compiled code = GenHeader.layout (Lemma layout_tie); falsifier's documented map = Spec/HeaderSpec.documented (Lemma documented_tie)",
                            rc == 0 and rc2 == 0, (out if rc else out2)[-800:]) and ok_all
         rc, out, dt = vlib.sh([harness, "hdrcases", str(ck.seed), str(n_h), str(n_r)], timeout=1200, env=corpus_env())
         lines = [l for l in out.splitlines() if l[:2] in ("H ", "W ", "R ")]
@@ -379,14 +427,13 @@ def run_c09(ck):
         "modelled": "header.go (Header layout regenerated per run; ReadHeader/WriteHeader/readBinaryStruct/writeBinaryStruct hand-modelled) and rom.go NewROM/ROM.ReadHeader/ROM.WriteHeader",
         "not_covered": "Header.Score/ROMSizeBytes/RAMSizeBytes; Contents with cap > len; HeaderOffset + 80 >= 2^32",
     })
-    for (name, stmt, _) in THEOREMS[:1] + THEOREMS[6:9] + THEOREMS[12:13]:
+    for (name, stmt, _) in [t for t in THEOREMS if t[0] in ("C09_version", "C09_serialise_parse", "C09_new_rom_roundtrip", "C09_locality_reported")] + GENERIC[2:3]:
         ck.sample({"theorem": name, "statement": " ".join(stmt.split())})
     for l in lines[:2] + [x for x in lines if x.startswith("R ")][:2]:
         ck.sample({"tie_case": l[:700]})
 
 
-REPLAY_V = IMPORTS + """From Gen Require GenHeader.
-Import ListNotations.
+REPLAY_V = IMPORTS + """Import ListNotations.
 Local Open Scope Z_scope.
 Set Printing Depth 100000.
 Definition bs : list Z := %s.
